@@ -14,5 +14,11 @@ for p in $props; do
   mkdir -p $cov/data; wait $pid; echo "$p exit=$?"
 done
 go tool covdata textfmt -i=$cov/data -o $cov/prof 2>/dev/null || { echo "no coverage data"; exit 2; }
-(cd /repo && go tool cover -func=$cov/prof | sort -k3 -n | awk '$3+0 < 100.0' )
-cp $cov/prof /tmp/verif-cover.prof
+# function and line attribution needs the INSTRUMENTED sources (the seams shift lines): rebuild that tree
+rsync -a --exclude=.git /repo/ $cov/tree/ && bin/vsim instrument $cov/tree > /dev/null || exit 2
+(cd $cov/tree && go tool cover -func=$cov/prof | sort -k3 -n | awk '$3+0 < 100.0' )
+echo "== uncovered blocks (instrumented sources)"
+grep ' 0$' $cov/prof | sed 's/ [0-9]* 0$//' | sort -u | while IFS=: read f r; do
+  a=${r%%.*}; f2=${f#github.com/google/wire/}
+  printf "%s:%s  " "$f2" "$r"; sed -n "${a}p" $cov/tree/$f2 | cut -c1-110
+done
